@@ -113,8 +113,7 @@ def main():
         structures.update(r["structures"])
         if r["_hs"] == hashseeds[0]:
             for s in r["samples"]:
-                if len(samples) < 4:
-                    samples.append(s)
+                samples.append(s)
             for q in r["queries"]:
                 if len(queries) < 1:
                     queries.append(q)
@@ -170,7 +169,7 @@ def main():
         "evaluations": evals,
         "distinct_nontrivial": len(structures),
         "rule": META.get("rule", "one evaluation = one structure (case) under one hash seed; distinct = distinct case ids"),
-        "samples": samples or [{"note": "no sample recorded"}],
+        "samples": (sorted(samples, key=lambda x: 0 if isinstance(x, dict) and "decisions_on_this_path" in x else 1)[:4]) or [{"note": "no sample recorded"}],
         "sample_query": queries[:1],
         "counters": counters,
         "notes": notes,
